@@ -86,6 +86,8 @@ class C08(Prop):
             "deflate": gen.deflate_opt(),
             # an earlier connection in the same process (same WebSocket object or another one) and how it ended
             "prelude": gen.prelude(),
+            # constructor arguments that only shape the upgrade request
+            "wsopts_noise": gen.wsopts_noise(),
             # a second live connection in the same process (interleaved with this one, or blocked in a send)
             "companion": gen.companion(),
             # calls with unsendable arguments that the application tries (and whose error it catches) on the way
